@@ -158,12 +158,28 @@ impl ast::Visit for Visitor<'_, '_> {
                 }
             },
 
-            ast::StmtKind::CallSub { .. } => unimplemented!("need to check arg types against signature"),
+            ast::StmtKind::CallSub { func, .. } => {
+                // (when this is implemented, the arg types will need to be checked against the signature)
+                self.errors.set(self.emit(error!(
+                    message("explicit sub call syntax is not supported"),
+                    primary(func, "unsupported syntax"),
+                )));
+            },
 
-            ast::StmtKind::Block { .. } => {},
-            ast::StmtKind::InterruptLabel { .. } => {},
+            // a bare nested block; the statements inside need to be checked like any others
+            ast::StmtKind::Block { .. } => ast::walk_stmt(self, stmt),
+
+            ast::StmtKind::InterruptLabel(expr) => {
+                if let Err(e) = self.check_int_expr(expr) {
+                    self.errors.set(e);
+                }
+            },
+            ast::StmtKind::RelTimeLabel { delta, .. } => {
+                if let Err(e) = self.check_int_expr(delta) {
+                    self.errors.set(e);
+                }
+            },
             ast::StmtKind::AbsTimeLabel { .. } => {},
-            ast::StmtKind::RelTimeLabel { .. } => {},
             ast::StmtKind::Label { .. } => {},
             ast::StmtKind::ScopeEnd { .. } => {},
             ast::StmtKind::NoInstruction { .. } => {},
@@ -274,6 +290,12 @@ impl Visitor<'_, '_> {
         vars.iter().map(|sp_pat!((var, value))| {
             self.check_single_var_decl(keyword, var, value.as_ref())
         }).collect_with_recovery()
+    }
+
+    /// Checks an expression that must be an integer (e.g. the value in an interrupt label or a relative time label).
+    fn check_int_expr(&self, expr: &Sp<ast::Expr>) -> ImplResult {
+        let ty = self.check_expr_as_value(expr, expr.span)?;
+        self.require_int(ty, expr.span, expr.span)
     }
 
     fn check_cond(&self, cond: &Sp<ast::Expr>) -> ImplResult {
